@@ -312,6 +312,15 @@ func TestC20Docs(t *testing.T) {
 			if string(c.Doc) == "null" || string(c.Doc) == "{}" || string(c.Doc) == "[]" || string(c.Doc) == "1" || string(c.Doc) == `"HP"` {
 				c.WantErr = true
 			}
+			if string(c.Doc) == "{}" && rapid.Bool().Draw(t, "emptyInto") {
+				c.Into = rapid.SampledFrom(Kinds).Draw(t, "emptyIntoKind")
+			}
+		}
+		if c.WantErr && c.Into == "" && class != "raw-document" && rapid.Bool().Draw(t, "intoConcrete") {
+			// the same document decoded into a configuration value of a
+			// concrete type: no Type it could be is the right one
+			c.Into = rapid.SampledFrom(Kinds).Draw(t, "intoKind")
+			class += "-into-concrete-type"
 		}
 		if c.Doc == nil {
 			b, err := json.Marshal(fields)
